@@ -58,7 +58,7 @@ class UseCount(Stream):
 
     def case_predicate(self, ops, impls):
         """the property itself, evaluated on what the implementation did (no model involved)"""
-        if ops and (ops[0].startswith("sealdenied\t") or ops[0].startswith("nslast\t") or ops[0].startswith("orphanrace\t") or ops[0].startswith("batchuses\t") or ops[0].startswith("rootlast\t")):
+        if ops and (ops[0].startswith("sealdenied\t") or ops[0].startswith("nslast\t") or ops[0].startswith("orphanrace\t") or ops[0].startswith("batchuses\t") or ops[0].startswith("rootlast\t") or ops[0].startswith("lastwrap\t")):
             return []      # the harness evaluates the predicate itself (!VIOL marker)
         c = parse_case(ops, impls)
         out = []
